@@ -226,7 +226,9 @@ def body_gradients(case, ctx):
             dmu, dvar = J @ alpha_r, -2.0 * (J @ Kinv_k)
             dsig = dvar / (2 * sig_r)
             ampr = max(1.0, (a / sig_r) ** 2)
-            rel = 1e-9 + 100 * kappa * EPS
+            # (this reference is float64 arithmetic too - the same solves, the same cancellation in the variance: the allowance covers the
+            # rounding of both sides)
+            rel = 2 * (1e-9 + 100 * kappa * EPS)
             e_mu = np.abs(J) @ np.abs(alpha_r) + 64 * EPS * float(np.max(np.abs(y))) / L       # what dmu can be off by, per unit rel
             e_sig = (a / L) * (a / sig_r) * ampr
             if case["acq"] == "UCB":
